@@ -884,13 +884,13 @@ func init() { drivers["C01"] = checkC01 }
 var jsonTrusted = []string{
 	"assumed contract of github.com/valyala/fastjson: Get/Exists/GetStringBytes/GetInt64/GetFloat64/Bool/Type observe the member a correct parser would produce for the text the writer emitted; Get returns the first member of a name",
 	"assumed text codec pairs: Time.Format(RFC3339)/Time.UnmarshalText and xsd.Marshal/xsd.Unmarshal are inverse on whole seconds; fmt %d / %t text and strconv.FormatFloat(f, _, -1, 64) text is a JSON number/boolean that parses back to exactly the value (a %f or fixed-precision float is classified lossy and accepted by no reader)",
-	"the package's string escaper stringBytes appends one JSON string that decodes to its argument (byte-level loop outside the subset; C06), as does encoding/json.Marshal of a string",
+	"the package's string escaper stringBytes appends one JSON string that decodes to its argument: used by that contract at its call sites and PROVED against it at byte level in this same check (obligations <id>/bytes/stringBytes/..., all input lengths); encoding/json.Marshal of a string does the same (assumed)",
 	"induction hypothesis at nested positions: an item / item list / language values / Source / Endpoints / PublicKey member written by the matching leaf writer is read back as the written value by JSONLoadItem, JSONItemsFn, asIRI (absolute IRIs), JSONGetNaturalLanguageField, GetAPSource, JSONGetActorEndpoints, JSONGetPublicKey",
 	"IsNil by its contract (C20); C08 views; go/types + go/ssa (x/tools v0.29.0); SMT solvers' unsat answers",
 }
 
 var jsonAssume = []string{
-	"member-table abstraction: a JSON object is the list of (name, kind, source value, condition) its leaf writers emit; byte-level syntax (commas, braces) and escaping are not modelled",
+	"member-table abstraction: a JSON object is the list of (name, kind, source value, condition) its leaf writers emit; byte-level syntax of the document (commas, braces) is not modelled; the escaping of strings is (stringBytes, byte level)",
 	"normal form: unset and empty are identified; instants compare as instants (zone normalised to UTC); IRIs are not the nil-like '-' placeholder; unsigned numbers are non-negative",
 	"which member names a structured reader consults is derived by executing its real body on a probe document, not written by hand",
 }
@@ -898,6 +898,7 @@ var jsonAssume = []string{
 func checkC01(w *World, c *Check) {
 	c.Trusted = append(c.Trusted, jsonTrusted...)
 	c.Assume = append(c.Assume, jsonAssume...)
+	guard(c, "C01/bytes", func() { addByteLevel(w, c, "C01") })
 	jsonRoundTripObligations(w, c, "C01")
 	jsonNestedRoundTrip(w, c, "C01")
 	jsonLeafItemReaders(w, c, "C01")
@@ -1416,12 +1417,14 @@ func init() {
 		c.Trusted = append(c.Trusted, jsonTrusted...)
 		c.Assume = append(c.Assume, jsonAssume...)
 		c.Assume = append(c.Assume, "the declared term of a field is its jsonld struct tag; 'complete escaper' is a static call-path fact (the leaf writer reaches stringBytes or encoding/json)")
+		guard(c, "C02/bytes", func() { addByteLevel(w, c, "C02") })
 		jsonDeclaredTermObligations(w, c, "C02")
 	}
 	drivers["C05"] = func(w *World, c *Check) {
 		c.Trusted = append(c.Trusted, jsonTrusted...)
 		c.Assume = append(c.Assume, jsonAssume...)
 		c.Assume = append(c.Assume, "the independent document is described by the struct-tag table: under each declared term a member of the kind that term admits, with an arbitrary value")
+		guard(c, "C05/bytes", func() { addByteLevel(w, c, "C05") })
 		jsonReadsDeclaredTermObligations(w, c, "C05")
 		jsonLeafItemReaders(w, c, "C05")
 		// "a value of the type the document names": the dispatch of the item decoder per vocabulary name (as in C07)
